@@ -37,6 +37,23 @@ def _worker(args):
     return verify_contract(qual, pid, timeout_ms, agree)
 
 
+def _run_pool(items, jobs, limit_s):
+    pool = mp.Pool(min(jobs, max(1, len(items))))
+    done, late = [], []
+    try:
+        pending = [(it, pool.apply_async(_worker, (it,))) for it in items]
+        deadline = time.time() + limit_s
+        for it, a in pending:
+            try:
+                done.append(a.get(timeout=max(1.0, deadline - time.time())))
+            except mp.TimeoutError:
+                late.append(it)
+    finally:
+        pool.terminate()
+        pool.join()
+    return done, late
+
+
 def san(s):
     return re.sub(r"[^A-Za-z0-9_.-]+", "_", s)[:150]
 
@@ -118,8 +135,21 @@ def check(pid, tier="quick", seed=0, jobs=None, only=None, verbose=False):
     jobs = jobs or min(16, max(1, len(quals)))
     results = []
     if quals:
-        with mp.Pool(jobs) as pool:
-            results = pool.map(_worker, [(q, pid, timeout_ms, agree) for q in quals], chunksize=1)
+        # Every solver call has a budget, but a z3 call has once been seen to spin far beyond it (one worker at 100% CPU for
+        # nine minutes on the unchanged tree, gone on the next run). A function whose worker does not return within the
+        # wall limit is run once more in a fresh pool; if it stalls again it is reported as a checker error (exit 3) and
+        # goes to the witness search like any function that could not be verified - never a verdict by itself.
+        limit_s = int(os.environ.get("PYVC_WALL_LIMIT", 900 if tier == "quick" else 5400))
+        items = [(q, pid, timeout_ms, agree) for q in quals]
+        results, late = _run_pool(items, jobs, limit_s)
+        if late:
+            sys.stderr.write("WARN workers stalled, running again: %s\n" % ", ".join(it[0] for it in late))
+            again, late = _run_pool(late, jobs, limit_s)
+            results += again
+        for it in late:
+            results.append({"status": "stalled", "qual": it[0], "results": [],
+                            "error": "the worker did not return within %d s, twice (solver ignoring its budget)" % limit_s})
+        results.sort(key=lambda r: r["qual"])
     exit_code = 0
     lines = []
     # ---------------------------------------------------------------- engine health
